@@ -545,6 +545,15 @@ def write_evidence(pid, tier, seed, t0, e1, bundles, relevant, nontrivial, sampl
                               "compiler's verdict (accept / reject with a thread-safety or borrow error) is compared with the "
                               "model's. dynamic clause: sequences of safe public calls incl. the low-level AtomicIter methods "
                               "are executed and the ownership ledger is validated by TraceProps." % (5 if tier == "quick" else 6))
+    # which actions of the implementation-level models were never the explanation of a recorded event (vacuity of E2)
+    never = {}
+    for b in bundles:
+        for spec_name, m in (b.get("matched") or {}).items():
+            if isinstance(m, dict):
+                z = sorted(k for k, v in m.items() if v == 0)
+                if z:
+                    never.setdefault(b["name"], {})[spec_name] = z
+    cov["model_actions_never_matched"] = never
     if apal:
         cov["apalache_inductive_invariant"] = apal
     if PLAN_LEVEL.get(pid) == "translation_validation":
